@@ -734,8 +734,12 @@ class MemorizedFunc(Logger):
         except (IOError, OSError, UnicodeDecodeError):
             # some backend can also raise OSError; the stored code cannot be
             # decoded when its write was interrupted inside a multi-byte
-            # character
-            self._write_func_code(func_code, first_line)
+            # character.
+            # Results found in the function directory without the code that
+            # computed them cannot be trusted (e.g. the wipe following a code
+            # change was interrupted after func_code.py had been removed):
+            # drop them before storing the current code.
+            self.clear(warn=False)
             return False
         if old_func_code == func_code:
             return True
